@@ -7,6 +7,7 @@ import (
 	"os"
 	"path/filepath"
 	"strings"
+	"time"
 
 	bleve "github.com/blevesearch/bleve/v2"
 	"github.com/blevesearch/bleve/v2/analysis/analyzer/keyword"
@@ -156,6 +157,37 @@ func (l Layout) isDeleted(d int) bool {
 	return false
 }
 
+// mergeToOne waits until everything is persisted and force-merges the file
+// segments into one; it fails unless exactly one segment is left.
+func mergeToOne(idx bleve.Index) error {
+	adv, err := idx.Advanced()
+	if err != nil {
+		return err
+	}
+	sc, ok := adv.(*scorch.Scorch)
+	if !ok {
+		return fmt.Errorf("not a scorch index")
+	}
+	for round := 0; round < 20; round++ {
+		deadline := time.Now().Add(20 * time.Second)
+		for time.Now().Before(deadline) {
+			sm := sc.StatsMap()
+			if toInt(sm["num_root_memorysegments"]) == 0 && toInt(sm["TotPersistLoopBeg"]) > 0 {
+				break
+			}
+			time.Sleep(2 * time.Millisecond)
+		}
+		if err := sc.ForceMerge(context.Background(), nil); err != nil {
+			return err
+		}
+		sm := sc.StatsMap()
+		if toInt(sm["num_root_memorysegments"]) == 0 && toInt(sm["num_root_filesegments"]) == 1 {
+			return nil
+		}
+	}
+	return fmt.Errorf("could not merge the first segment's documents into one file segment")
+}
+
 // PostTerm is the indexed term standing for "the posting list {d : bit d of
 // mask}": document d carries the terms of all masks containing d, so every
 // posting list over the layout's documents exists in ONE index.
@@ -223,9 +255,9 @@ func (a *IndexA) Close() {
 // indexed one per batch in order and force-merged into a single (1-hit
 // encoding) segment under dir.
 func BuildIndexA(eng string, l Layout, dir string) (*IndexA, error) {
-	if eng == EngScorchMerged && len(l.Segs) != 1 {
-		return nil, fmt.Errorf("merged layout must be a single segment")
-	}
+	// EngScorchMerged with several segments: the FIRST segment is the force-merged
+	// one (1-hit postings), the others are the batches indexed after the merge -
+	// the layout in which per-segment state of the unadorned optimisations matters
 	n := l.N()
 	for _, sz := range l.Segs {
 		if sz <= 0 {
@@ -259,10 +291,16 @@ func BuildIndexA(eng string, l Layout, dir string) (*IndexA, error) {
 			return nil, err
 		}
 		off := 0
-		for _, sz := range l.Segs {
-			if eng == EngScorchMerged {
+		for si, sz := range l.Segs {
+			if eng == EngScorchMerged && si == 0 {
 				for d := off; d < off+sz; d++ {
 					if err := idx.Index(DocID(d), docA(d, n)); err != nil {
+						return nil, err
+					}
+				}
+				if len(l.Segs) > 1 {
+					if err := mergeToOne(idx); err != nil {
+						idx.Close()
 						return nil, err
 					}
 				}
@@ -279,7 +317,7 @@ func BuildIndexA(eng string, l Layout, dir string) (*IndexA, error) {
 			}
 			off += sz
 		}
-		if eng == EngScorchMerged {
+		if eng == EngScorchMerged && len(l.Segs) == 1 {
 			if err := ForceMerge(idx); err != nil {
 				return nil, err
 			}
@@ -316,7 +354,7 @@ func BuildIndexA(eng string, l Layout, dir string) (*IndexA, error) {
 		if sc, ok := adv.(*scorch.Scorch); ok && eng == EngScorchMerged {
 			sm := sc.StatsMap()
 			nseg := toInt(sm["num_root_memorysegments"]) + toInt(sm["num_root_filesegments"])
-			if nseg > 1 {
+			if len(l.Segs) == 1 && nseg > 1 {
 				idx.Close()
 				return nil, fmt.Errorf("engine %s: %d segments at the root after the forced merge", eng, nseg)
 			}
